@@ -35,6 +35,9 @@ func cliRepo() string {
 	if d := os.Getenv("VERIF_C20_REPO"); d != "" {
 		return d
 	}
+	if d := os.Getenv("VERIF_REPO"); d != "" { // the driver's own override (mutation runs)
+		return d
+	}
 	return "/repo"
 }
 
@@ -154,6 +157,7 @@ func (w *world) cliJudge(cands []string, loc string) (allowed map[string]*Node, 
 			}
 			v.outside = v.outside || vc.outside
 			v.sibling = v.sibling || vc.sibling
+			v.foldSib = v.foldSib || vc.foldSib
 			if vc.links > v.links {
 				v.links = vc.links
 			}
@@ -224,6 +228,9 @@ func (w *world) cliFeatures(v verdict, loc string, ctx *vcommon.Ctx) {
 	if v.sibling {
 		ctx.Class("loc:into-prefix-sibling")
 	}
+	if v.foldSib {
+		ctx.Class("loc:into-casefold-sibling")
+	}
 	if feat != "" && (v.outside || v.sibling) {
 		ctx.Class("op:nontrivial")
 		w.nontrivial = true
@@ -235,6 +242,8 @@ func (w *world) cliEscape(desc string, n *Node, v verdict, loc string) *vcommon.
 	switch {
 	case v.links-w.rootLinks > 0:
 		how = "symlink"
+	case w.foldSibling(w.m.abs(n)):
+		how = "casefold-sibling"
 	case w.inSibling(w.m.abs(n)):
 		how = "prefix-sibling"
 	case hasDotDot(loc):
@@ -354,6 +363,7 @@ func (w *world) cliFileArg(loc string) (map[string]*Node, *Node, verdict) {
 		if !in {
 			v.outside = true
 			v.sibling = v.sibling || w.inSibling(r.Path)
+			v.foldSib = v.foldSib || w.foldSibling(r.Path)
 		}
 		if in && r.Kind == "file" {
 			v.allowed[r.Node.ID] = r.Node
